@@ -66,7 +66,8 @@ def cvc5_check(smt2_text, timeout_ms=None, extra_opts=()):
         path = f.name
     try:
         out = subprocess.run(
-            [CVC5, "--lang", "smt2", f"--tlimit={timeout_ms or CVC5_TIMEOUT_MS}", *extra_opts, path],
+            [CVC5, "--lang", "smt2", f"--tlimit={timeout_ms or CVC5_TIMEOUT_MS}", *extra_opts,
+             *(["--strings-exp"] if "String" in smt2_text else []), path],
             capture_output=True,
             text=True,
             timeout=(timeout_ms or CVC5_TIMEOUT_MS) / 1000 + 5,
